@@ -207,11 +207,15 @@ type big struct {
 func rep(s string, n int) []byte { return bytes.Repeat([]byte(s), n) }
 
 var bigs = []big{
-	{"statements", func(n int) []byte { return append([]byte("<?php\n"), rep("$a = foo($b, 1) + 2 * $c[3]->d;\n", n/33)...) }},
+	{"statements", func(n int) []byte {
+		return append([]byte("<?php\n"), rep("$a = foo($b, 1) + 2 * $c[3]->d;\n", n/33)...)
+	}},
 	{"heredoc", func(n int) []byte {
 		return append(append([]byte("<?php $x = <<<EOT\n"), rep("line $a {$b->c} text\n", n/22)...), []byte("EOT;\n")...)
 	}},
-	{"comment", func(n int) []byte { return append(append([]byte("<?php /*"), rep("comment text\n", n/13)...), []byte("*/ echo 1;")...) }},
+	{"comment", func(n int) []byte {
+		return append(append([]byte("<?php /*"), rep("comment text\n", n/13)...), []byte("*/ echo 1;")...)
+	}},
 	{"parens", func(n int) []byte {
 		d := n / 100
 		return append(append(append([]byte("<?php $a = "), rep("(", d)...), '1'), append(rep(")", d), ';')...)
@@ -219,7 +223,9 @@ var bigs = []big{
 	{"short-lines", func(n int) []byte { return append([]byte("<?php\n"), rep("1;\n", n/3)...) }},
 	{"html-lt", func(n int) []byte { return rep("<b>x < y</b>\r\n", n/14) }},
 	{"cr-lines", func(n int) []byte { return append([]byte("<?php\r"), rep("$a;\r", n/4)...) }},
-	{"string-escapes", func(n int) []byte { return append(append([]byte("<?php \""), rep("\\\\\\$a \\\" ", n/9)...), []byte("\";")...) }},
+	{"string-escapes", func(n int) []byte {
+		return append(append([]byte("<?php \""), rep("\\\\\\$a \\\" ", n/9)...), []byte("\";")...)
+	}},
 	{"unclosed-braces", func(n int) []byte { return append([]byte("<?php "), rep("if ($a) { ", n/10)...) }},
 	{"errors", func(n int) []byte { return append([]byte("<?php "), rep("$a = ; ", n/7)...) }},
 }
